@@ -39,10 +39,12 @@ CHECKS.update(
                 "can_accomodate_strategy are proved against an abstract ledger view for ALL resource vectors, requests and residents: a refused request changes "
                 "nothing, a served request lowers the availability of exactly the matching keys by exactly the requested amount and records exactly that amount for "
                 "the holder, deallocation returns exactly what was recorded, and the worker ledger invariant WF_W (residents <-> allocations <-> batches <-> profiles) is "
-                "preserved by every mutator. Prefix-sum facts are lemmas proved by explicit induction steps. Bounded part: operation histories (copy/deepcopy, pool level) "
-                "are enumerated up to a stated length. Not machine-checked: additivity of the finite sum over holders (per-operation conservation is)."
+                "preserved by every mutator. Prefix-sum facts are lemmas proved by explicit induction steps. The pool level is proved too: WorkerPool.place_task (for the calls that pass a strategy), remove_task and step are verified against "
+                "bodies-in-terms-of-Worker-contracts under the pool invariant (every worker WF_W, workers own separate containers, a task resident on at most one worker, the pool's task->worker map agrees with the workers): "
+                "a refused placement changes nothing, a successful one changes exactly one worker (first fit / the named worker) and every other worker's footprint is untouched. Bounded part: operation histories (copy/deepcopy, read-only views "
+                "such as pool.resources must not change the cluster) are enumerated up to a stated length. Not machine-checked: additivity of the finite sum over holders (per-operation conservation is)."
             ),
-            note=BASE_NOTE + " Specific: allocate_multiple is proved atomic under Pre_disjoint (no two request keys match one vector key) -- the overlapping case is a known finding of the bounded check; dict keys of value class Resource compared structurally (no hash collisions); Task/strategy/profile keys by identity (distinct ids); copy()/deepcopy() of Resources/Worker are bounded-only.",
+            note=BASE_NOTE + " Specific: allocate_multiple is proved atomic under Pre_disjoint (no two request keys match one vector key) -- the overlapping case is a known finding of the bounded check; dict keys of value class Resource compared structurally (no hash collisions); Task/strategy/profile keys by identity (distinct ids); copy()/deepcopy() of Resources/Worker/WorkerPool, Resources.__add__ and the load/evict_profile of a pool are bounded-only; WorkerPool.place_task without a strategy or with a pool-level scheduler is excluded by precondition (not verified).",
             design_ref="DESIGN.md section 6 (C04)",
         ),
         "C06": dict(
@@ -52,7 +54,8 @@ CHECKS.update(
                 "Every Task mutator (release, schedule, unschedule, start, step, preempt, resume, finish, cancel, update_remaining_time) is proved to move the state only along "
                 "the allowed transition relation taken from the statement, to raise (leaving the task unchanged) exactly in the stated states, and to preserve the task "
                 "representation invariant; lemmas show COMPLETED/CANCELLED/EVICTED have no outgoing edge, CANCELLED is entered only before running and RUNNING only from "
-                "SCHEDULED/PREEMPTED; a scan shows _state is written only inside Task. Cancellation closure and graph-finished reporting are bounded (labelled so)."
+                "SCHEDULED/PREEMPTED; a scan shows _state is written only inside Task. TaskGraph.is_sink_task / get_sink_tasks / is_complete / is_cancelled are proved against the definition (finished EXACTLY when every sink - no child, or only the same task of the next timestamp - is complete). "
+                "Simulator.__handle_task_cancellation is proved to drop the pending placement of a cancelled task from the queue and the cache. Cancellation closure (TaskGraph.cancel) is bounded (labelled so)."
             ),
             note=BASE_NOTE + " Specific: Task.__init__ is an assumed contract; log-statement arguments are assumed pure; TaskGraph.cancel is decided only by the bounded stand-in.",
             design_ref="DESIGN.md section 6 (C06)",
@@ -117,9 +120,9 @@ CHECKS.update(
                 "a served request lowers availability by exactly the demand) is proved preserved by Worker.place_task / remove_task / load_profile / evict_profile for all "
                 "states, so by induction over the operations no history of them oversubscribes a worker. Which simulator code paths mutate live workers is pinned by a scan "
                 "(when registered); the end-to-end clause (sum of resident demands <= capacity at every place/remove, one worker per task) is additionally observed on "
-                "bounded runs. Not machine-checked: finite additivity of the sum over holders; WorkerPool-level first-fit choice (bounded only)."
+                "bounded runs. 'A task never draws resources from more than one worker' is the proved pool invariant (resident on at most one worker) preserved by WorkerPool.place_task#body / remove_task#body, which change exactly one worker. Not machine-checked: finite additivity of the sum over holders."
             ),
-            note=BASE_NOTE + " Specific: Pre_disjoint on request keys; WorkerPool.place_task and the scheduler-side copies are covered by the bounded stand-ins only.",
+            note=BASE_NOTE + " Specific: Pre_disjoint on request keys; the pool-level bodies are verified under the pool invariant, which the simulator call sites assume (it is preserved by every verified mutator); the scheduler-side copies are covered by the bounded stand-ins only.",
             design_ref="DESIGN.md section 6 (C01)",
         ),
         "C02": dict(
@@ -150,7 +153,7 @@ CHECKS.update(
                 "loop.step_le_every_remaining_time, loop.step_le_time_to_next_event, loop.step_reaches_earliest_event (peek is an earliest event by the inductive lemma heap.root_earliest) - "
                 "and an event is handed to its handler only when the clock equals its time (call:Simulator.__handle_event.event_at_its_time)."
             ),
-            note=BASE_NOTE + " Specific: WorkerPool.step is an assumed contract; floats as reals in fuzz; the exact upper bound of fuzz is a known finding (rounding).",
+            note=BASE_NOTE + " Specific: the abstract contract of WorkerPool.step used by __step/simulate is verified against the body (WorkerPool.step#body) under the pool invariant; floats as reals in fuzz; the exact upper bound of fuzz is a known finding (rounding).",
             design_ref="DESIGN.md section 6 (C03)",
         ),
         "C05": dict(
@@ -168,7 +171,7 @@ CHECKS.update(
         "C08": dict(
             category="exploration",
             technique=WORLDS + ": CSV trace and counters compared with the observed run, trace fed to the project's CSVReader",
-            text="Bounded stand-in for rows / reader (per world, the SIMULATOR_END counters, every row's fields, scheduler rows and the reader's reconstruction are compared with what an observer saw) plus pyvc obligations on Simulator.__handle_task_finished: the finished counter moves by exactly one, the missed-deadline counter moves iff completion is later than the deadline, graph counters move at most once and only together.",
+            text="Bounded stand-in for rows / reader (per world, the SIMULATOR_END counters, every row's fields, scheduler rows and the reader's reconstruction are compared with what an observer saw) plus pyvc obligations on Simulator.__handle_task_finished: the finished counter moves by exactly one, the missed-deadline counter moves iff completion is later than the deadline, graph counters move at most once and only together; Simulator.__handle_task_cancellation: the cancelled-task counter moves by exactly one per TASK_CANCEL event.",
             note="Bounded; sampled worlds (not exhaustive); observer wraps Task/Worker methods in the checking process. The CSV rows themselves (f-strings) are not modelled by pyvc.",
             design_ref="DESIGN.md section 6 (C08)",
         ),
@@ -182,7 +185,7 @@ CHECKS.update(
         "C17": dict(
             category="exploration",
             technique="exhaustive small-scope enumeration (all labelled DAGs <= 5 nodes quick / <= 6 thorough, weights, cyclic digraphs, random DAGs <= 40) against brute-force spec functions",
-            text="Bounded stand-in: toposort, longest path, critical-path runtime, are_dependent, node depth, sources/sinks, breadth_first() and depth_first(n) are compared with definitions by naive closure / path enumeration on every labelled DAG up to the bound (the property's own quantifier is this enumeration).",
+            text="Proved for all graphs (function level, not counted towards the level): Graph.add_child preserves the representation invariant (the parent map is the inverse of the child map, every child is a node, every entry owns its list) and adds exactly the edge; get_sources / is_source return exactly the parentless nodes. Bounded stand-in (deciding): toposort, longest path, critical-path runtime, are_dependent, node depth, sources/sinks, breadth_first() and depth_first(n) are compared with definitions by naive closure / path enumeration on every labelled DAG up to the bound (the property's own quantifier is this enumeration), also after a source was added, every routine was called (memoisation) and the source was removed again.",
             note="Exhaustive up to the stated bound; generator-based traversals and the recursive DFS toposort are outside the pyvc subset.",
             design_ref="DESIGN.md section 6 (C17)",
         ),
@@ -233,13 +236,15 @@ CHECKS.update(
         ),
         "C18": dict(
             category="exploration",
-            technique="bounded enumeration of task-graph states built through legal call sequences x times x lookaheads x switches against contracts from the statement; " + PYVC + " on TaskGraph.get_releasable_tasks and TaskGraph.notify_task_completion (release rule, both directions)",
+            technique="bounded enumeration of task-graph states built through legal call sequences x times x lookaheads x switches against contracts from the statement; " + PYVC + " on TaskGraph.get_schedulable_tasks (selection loop), TaskGraph.get_releasable_tasks and TaskGraph.notify_task_completion (release rule, both directions)",
             text=(
                 "Bounded stand-in (deciding): get_schedulable_tasks never starves a released task, never offers completed/cancelled tasks, offers scheduled/running ones only with retraction/preemption, "
                 "is monotone in lookahead and release_taskgraphs; get_releasable_tasks and notify_task_completion release exactly the unlocked children. Proved for all inputs at function level "
                 "(not counted towards the level): get_releasable_tasks returns exactly the graph nodes in a releasable state whose every parent is complete (releasable.only / releasable.none_starved); "
                 "for a non-conditional task notify_task_completion releases only (release.only_unlocked_children) and every (release.every_unlocked_child) child that is not cancelled and is a join or "
-                "has all parents complete; for a conditional at most one child, of positive weight."
+                "has all parents complete; for a conditional at most one child, of positive weight; TaskGraph.get_schedulable_tasks (324 obligations): every node that is RELEASED with release time <= time + lookahead, PREEMPTED or EVICTED is in the offer "
+                "(frontier.no_starvation), and without preemption every offered task is a node that is not COMPLETED / CANCELLED / RUNNING and is SCHEDULED only with retract_schedules (frontier.only_allowed_without_preemption); "
+                "phase 1 (estimate propagation) is shown to touch only its local work list and map. Bounded only: the clause about non-planning policies (depends on the estimates), monotonicity in lookahead / release_taskgraphs, the preemption tail."
             ),
             note="Bounded (bound in the evidence; 4-node frontier states sampled).",
             design_ref="DESIGN.md section 6 (C18)",
